@@ -35,7 +35,10 @@ GU_PNames  == <<GU_transport, GU_user, GU_ttl, GU_method, GU_maddr, GU_lr, GU_fo
 GU_Vals    == <<GU_e, GU_a, GU_A, GU_b>>
 GU_HNames  == <<GU_s, GU_S, GU_t>>
 \* value index 5: the irregular spelling of the empty value (parameter "name=", header "name")
+\* value index 6: a value that is not a token ("a,b"): the list does not parse            (both: drift / probing only)
 GU_IRREG   == 5
+GU_BADV    == 6
+GU_ValOf(k) == IF k = GU_IRREG THEN <<>> ELSE IF k = GU_BADV THEN GU_acb ELSE GU_Vals[k]
 \* "user, ttl, method, maddr parameters must be present in both or neither"
 GU_Critical == {GU_user, GU_ttl, GU_method, GU_maddr}
 
@@ -43,10 +46,8 @@ GU_Map(t, Op(_)) == SubSeq([i \in 1..Len(t) |-> Op(t[i])], 1, Len(t))
 GU_Lower(t)      == GU_Map(t, ToLower)
 GU_Range(s)      == {s[i] : i \in 1..Len(s)}
 
-GU_MkParam(x) == [n |-> GU_PNames[x[1]], v |-> IF x[2] = GU_IRREG THEN <<>> ELSE GU_Vals[x[2]],
-                  e |-> IF x[2] = GU_IRREG THEN TRUE ELSE GU_Vals[x[2]] # <<>>]
-GU_MkHdr(x)   == [n |-> GU_HNames[x[1]], v |-> IF x[2] = GU_IRREG THEN <<>> ELSE GU_Vals[x[2]],
-                  e |-> x[2] # GU_IRREG]
+GU_MkParam(x) == [n |-> GU_PNames[x[1]], v |-> GU_ValOf(x[2]), e |-> IF x[2] = GU_IRREG THEN TRUE ELSE GU_ValOf(x[2]) # <<>>]
+GU_MkHdr(x)   == [n |-> GU_HNames[x[1]], v |-> GU_ValOf(x[2]), e |-> x[2] # GU_IRREG]
 \* x = <<scheme, user, pass, host, port, params, hdrs>>: indices; params / hdrs: sequences of <<name, value>> indices
 GU_Mk(x) == [scheme |-> GU_Schemes[x[1]], user |-> GU_Users[x[2]], pass |-> GU_Passes[x[3]],
              host |-> GU_Hosts[x[4]], port |-> GU_Ports[x[5]],
@@ -70,12 +71,14 @@ GU_Render(u) ==
   \o (IF Len(u.params) > 0 THEN <<SEMI>> \o GU_ParamsText(u) ELSE <<>>)
   \o (IF Len(u.hdrs) > 0 THEN <<QM>> \o GU_HdrsText(u) ELSE <<>>)
 
-\* the domain of C15: lists well formed (regular spelling) and free of duplicate names (names are case insensitive)
+\* the domain of C15: lists well formed (regular spelling, token values) and free of duplicate names (names are
+\* case insensitive)
 GU_NoDup(items)  == \A i, j \in 1..Len(items) : i # j => GU_Lower(items[i].n) # GU_Lower(items[j].n)
+GU_TokVal(v)     == GU_Lower(v) \in {GU_e, GU_a, GU_b}
 GU_WellFormed(u) == /\ (u.user = <<>> => u.pass = <<>>)
                     /\ GU_NoDup(u.params) /\ GU_NoDup(u.hdrs)
-                    /\ \A i \in 1..Len(u.params) : u.params[i].e = (u.params[i].v # <<>>)
-                    /\ \A i \in 1..Len(u.hdrs) : u.hdrs[i].e
+                    /\ \A i \in 1..Len(u.params) : u.params[i].e = (u.params[i].v # <<>>) /\ GU_TokVal(u.params[i].v)
+                    /\ \A i \in 1..Len(u.hdrs) : u.hdrs[i].e /\ GU_TokVal(u.hdrs[i].v)
 
 ----------------------------------------------------------------------------
 \* variants
